@@ -44,7 +44,7 @@ def corrOutcome (render : Outcome (List Nat)) (recWant : Option (List Nat)) (c :
 
 def lenClass (n : Nat) : String := if n < 64 then "lt64" else "ge64"
 
-def handle (c : Case) : Verdict :=
+def handleCase (c : Case) : Verdict :=
   let obs := obsString c
   match c.op with
   | "flt.fmt" =>
@@ -53,7 +53,7 @@ def handle (c : Case) : Verdict :=
       let dbits := if isf then hexNat (c.get "dbits") else bits
       let reff := parseUnits 8 (c.get "reff"); let rend := parseUnits 8 (c.get "rend")
       let hasPrec := c.get "prec" != "none"
-      let sp : FSpec := { minimumLength := c.int "w", precision := if hasPrec then c.int "prec" else -1, alignment := alignOf (c.get "al"),
+      let sp : FSpec := { minimumLength := c.int "wid", precision := if hasPrec then c.int "prec" else -1, alignment := alignOf (c.get "al"),
                           floatClass := classOf (c.get "cls"), pad := c.nat "pad", alwaysSigned := c.nat "sign" != 0 }
       let render : Render := fun _ _ => rend
       let mo := if isf then formatFloat render (fun _ => dbits) sp bits else formatDouble render sp bits
@@ -110,5 +110,14 @@ def handle (c : Case) : Verdict :=
         branch := "parse." ++ (if s.isEmpty then "empty" else if rd.2 == 0 then "noconv" else if rd.2 == s.length then "full" else "prefix"),
         nontrivial := !s.isEmpty }
   | _ => { corr := false, spec := true, why := "unknown op", model := "?" }
+
+/-- An input line whose reference fields do not belong to its value/spec (only a hand-edited or shrunk replay
+    line can be: the generator computes them from the value) is not a case of the property; it is reported as a
+    correspondence mismatch, never as a violation. -/
+def handle (c : Case) : Verdict :=
+  let obs := obsString c
+  if obs.startsWith "!ref-mismatch" || obs.startsWith "!promotion-mismatch" then
+    { corr := false, spec := true, model := "-", why := "inconsistent input line (reference fields do not match the value)", branch := "invalid-input" }
+  else handleCase c
 
 end Driver.Flt
